@@ -14,6 +14,7 @@ Tr == ndJsonDeserialize(IOEnv.TRACE)          \* line r+1 = [rank |-> r, ev |-> 
 PFromTrace == Len(Tr)
 JFromTrace == Tr[1].J
 RFromTrace == Tr[1].R
+BossFromTrace == IF "boss" \in DOMAIN Tr[1] THEN Tr[1].boss ELSE TRUE
 Log(r) == Tr[r + 1].ev
 
 VARIABLES cur, finished
@@ -42,7 +43,7 @@ TraceInit ==
   /\ flightM = [r \in Ranks |-> <<>>] /\ arrivedM = [r \in Ranks |-> <<>>]
   /\ pc = [r \in Ranks |-> IF r = Root THEN "order" ELSE "recv"]
   /\ jobStack = JobOrder(1)
-  /\ workerStack = SeqOfSet(Ranks)
+  /\ workerStack = SeqOfSet(Workers)
   /\ dispatch = EmptyMap
   /\ waitReq = [r \in Ranks |-> FALSE]
   /\ finishSent = [r \in Ranks |-> FALSE]
@@ -82,13 +83,13 @@ TLoop(r) == LoopTest(r) /\ UNCHANGED <<cur, finished>>
 GotDoneAt(i) == i <= Len(Log(Root)) /\ Log(Root)[i][1] = "GotDone"
 TCheck ==
   /\ pc[Root] = "check"
-  /\ \E k \in 0..P :
+  /\ \E k \in 0..NW :
        LET c0 == cur[Root]
            ws == [i \in 1..k |-> Log(Root)[c0 + i - 1][2]]
            D  == {ws[i] : i \in 1..k}
            pushed == PushAll(workerStack, SeqOfSet(D))
-           fin == jobStack = <<>> /\ Len(pushed) >= P
-           toFinish == SeqOfSet({w \in Ranks : fin /\ ~finishSent[w]}) IN
+           fin == jobStack = <<>> /\ Len(pushed) >= NW
+           toFinish == SeqOfSet({w \in Workers : fin /\ ~finishSent[w]}) IN
        /\ \A i \in 1..k : GotDoneAt(c0 + i - 1)
        /\ \A i \in 1..(k - 1) : ws[i] < ws[i + 1]
        /\ \A w \in D : waitReq[w] /\ flightM[w] # <<>>
@@ -96,16 +97,18 @@ TCheck ==
        /\ workerStack' = pushed
        /\ waitReq' = [w \in Ranks |-> IF w \in D THEN FALSE ELSE waitReq[w]]
        /\ flightM' = [w \in Ranks |-> IF w \in D THEN Tail(flightM[w]) ELSE flightM[w]]
-       /\ flightW' = [w \in Ranks |-> IF fin /\ ~finishSent[w] THEN Append(flightW[w], Msg("Finish", -1)) ELSE flightW[w]]
-       /\ finishSent' = IF fin THEN [w \in Ranks |-> TRUE] ELSE finishSent
+       /\ flightW' = [w \in Ranks |-> IF fin /\ ~finishSent[w] /\ w \in Workers THEN Append(flightW[w], Msg("Finish", -1)) ELSE flightW[w]]
+       /\ finishSent' = IF fin THEN [w \in Ranks |-> w \in Workers] ELSE finishSent
        /\ cur' = [cur EXCEPT ![Root] = c0 + k + Len(toFinish)]
   /\ pc' = [pc EXCEPT ![Root] = "top"]
   /\ UNCHANGED <<arrivedW, arrivedM, jobStack, dispatch, wStatus, curJob, ran, round, finished>>
 
 \* return of mpi_skel::run on every rank: the returned map must be the master's map, identical on all ranks
 MapOf(e) == e[2]
+\* (with a pure master only rank 0 holds a map: the other ranks log an empty one)
 MapsAgree == \A r \in Ranks : /\ Has(r) /\ Ev(r)[1] = "RoundEnd"
-                              /\ {<<j, dispatch[j]>> : j \in DOMAIN dispatch} = {MapOf(Ev(r))[i] : i \in 1..Len(MapOf(Ev(r)))}
+                              /\ (BossWorks \/ r = Root) =>
+                                   {<<j, dispatch[j]>> : j \in DOMAIN dispatch} = {MapOf(Ev(r))[i] : i \in 1..Len(MapOf(Ev(r)))}
 TNextRound ==
   /\ AllDone /\ round < R /\ MapsAgree
   /\ round' = round + 1
